@@ -931,3 +931,63 @@ reg.add(Proc(UC + '__delitem__', [('self', OBJ), ('component', OBJ)],
              raises={'KeyError': (lambda c: uc_none_before(uc_data(c, False), L(uc_data(c, False)), c.a.component),
                                   lambda c: [('nothing-changes', c.h('$list') == c.h0('$list'))])},
              loops={'L0': _uc_loop}))
+
+
+# ------------------------------------------------------------------ (re-)initialisation: __init__ is also used to wipe a live object
+def _new_registry(ex, node, st):
+    """AdapterRegistry(): a fresh registry that holds nothing (its ghost maps are empty)"""
+    r = ex.fresh_ref(st, 'registry')
+    st.heap.set('$A', z3.Store(st.heap.get('$A'), r, EMPTYMAP))
+    st.heap.set('$S', z3.Store(st.heap.get('$S'), r, EMPTYMAP))
+    return [(st, vobj(r))]
+
+
+def _assign_components_bases(ex, tgt, st, recv, v):
+    """self.__bases__ = tuple(bases): the property setter re-bases the two underlying registries on those of the bases and
+    records the tuple -- no effect on listings, registries' contents or events (C06 covers the chain)"""
+    return None
+
+
+def _fresh_empty(c, fld, kind):
+    ref = c.h(fld)[c.a.self]
+    content = (c.h('$dict')[ref] == EMPTYMAP) if kind == 'dict' else (L(c.h('$list')[ref]) == 0)
+    return z3.And(z3.Not(c.h0('$alloc')[ref]), ref != NONE, content)
+
+
+def _old_untouched(c):
+    o = z3.Const('iu_o', Obj)
+    return z3.ForAll([o], z3.Implies(c.h0('$alloc')[o], z3.And(c.h('$alloc')[o],
+        c.h('$dict')[o] == c.h0('$dict')[o], c.h('$list')[o] == c.h0('$list')[o], c.h('$A')[o] == c.h0('$A')[o], c.h('$S')[o] == c.h0('$S')[o])))
+
+
+reg.add(Proc(R + 'Components._init_registries', [('self', OBJ)], source='registry.py:Components._init_registries',
+             calls={'AdapterRegistry': _new_registry}, modifies=['adapters', 'utilities', '$A', '$S', '$alloc'],
+             ensures=lambda c: [('two-fresh-distinct-registries-that-hold-nothing', z3.And(
+                 z3.Not(c.h0('$alloc')[c.h('adapters')[c.a.self]]), z3.Not(c.h0('$alloc')[c.h('utilities')[c.a.self]]),
+                 c.h('adapters')[c.a.self] != c.h('utilities')[c.a.self],
+                 c.h('$A')[c.h('adapters')[c.a.self]] == EMPTYMAP, c.h('$S')[c.h('adapters')[c.a.self]] == EMPTYMAP,
+                 c.h('$A')[c.h('utilities')[c.a.self]] == EMPTYMAP, c.h('$S')[c.h('utilities')[c.a.self]] == EMPTYMAP)),
+                 ('older-registries-untouched', _old_untouched(c))]))
+reg.add(Proc(R + 'Components._init_registrations', [('self', OBJ)], source='registry.py:Components._init_registrations',
+             modifies=['_utility_registrations', '_adapter_registrations', '_subscription_registrations', '_handler_registrations',
+                       '$dict', '$list', '$alloc'],
+             ensures=lambda c: [('four-fresh-empty-listings', z3.And(
+                 _fresh_empty(c, '_utility_registrations', 'dict'), _fresh_empty(c, '_adapter_registrations', 'dict'),
+                 _fresh_empty(c, '_subscription_registrations', 'list'), _fresh_empty(c, '_handler_registrations', 'list'))),
+                 ('older-containers-untouched', _old_untouched(c))]))
+reg.add(Proc(R + 'Components.__init__', [('self', OBJ), ('name', OBJ), ('bases', SEQO)], source='registry.py:Components.__init__',
+             defaults={'name': V(OBJ, box_name(EMPTYNAME)), 'bases': V(SEQO, Empty(SeqO))},
+             calls={'self._init_registries': R + 'Components._init_registries', 'self._init_registrations': R + 'Components._init_registrations'},
+             setattr_={'__bases__': _assign_components_bases, '__name__': lambda ex, tgt, st, recv, v: None},
+             modifies=['adapters', 'utilities', '$A', '$S', '$alloc', '_utility_registrations', '_adapter_registrations',
+                       '_subscription_registrations', '_handler_registrations', '$dict', '$list', '_v_utility_registrations_cache'],
+             requires=lambda c: [('the-name-is-a-str', is_name(c.a.name))],
+             ensures=lambda c: [
+                 ('listings-and-registries-are-empty-together', z3.And(
+                     _fresh_empty(c, '_utility_registrations', 'dict'), _fresh_empty(c, '_adapter_registrations', 'dict'),
+                     _fresh_empty(c, '_subscription_registrations', 'list'), _fresh_empty(c, '_handler_registrations', 'list'),
+                     c.h('$A')[c.h('adapters')[c.a.self]] == EMPTYMAP, c.h('$S')[c.h('adapters')[c.a.self]] == EMPTYMAP,
+                     c.h('$A')[c.h('utilities')[c.a.self]] == EMPTYMAP, c.h('$S')[c.h('utilities')[c.a.self]] == EMPTYMAP)),
+                 ('the-volatile-utility-bookkeeping-is-dropped', c.h('_v_utility_registrations_cache')[c.a.self] == NONE),
+                 ('no-event-is-emitted', c.h('$events') == c.h0('$events')),
+                 ('older-containers-and-registries-untouched', _old_untouched(c))]))
